@@ -52,6 +52,7 @@ CORPUS = ['pheno', 'pheno', 'pheno', 'moxo', 'pheno_trans1', 'pheno_advan3', 'ph
 
 # histories that are always run first: every structural transition between the ADVANs on every parameterisation
 _FO, _AP, _RP, _IA = 'set_first_order_absorption', 'add_peripheral_compartment', 'remove_peripheral_compartment', 'set_instantaneous_absorption'
+_MM, _TR = 'set_michaelis_menten_elimination', 'set_transit_compartments'
 DIRECTED = [
     ('pheno', [_FO]), ('pheno', [_AP]), ('pheno', [_FO, _AP]), ('pheno', [_AP, _FO]), ('pheno', [_AP, _AP]),
     ('pheno', [_FO, _AP, _AP]), ('pheno', [_AP, _AP, _FO]), ('pheno', [_AP, _RP]), ('pheno', [_FO, _IA]),
@@ -70,6 +71,14 @@ DIRECTED = [
     ('pheno_advan4_trans1', [_IA]), ('pheno_advan4_trans1', [_RP]), ('pheno_advan4_trans1', ['add_lag_time']),
     ('moxo', [_AP]), ('moxo', [_IA]), ('moxo', ['remove_lag_time']), ('moxo', [_AP, _AP]), ('moxo', [_AP, _IA]),
     ('pheno_cmt', [_FO]), ('pheno_cmt', [_FO, _AP]),
+    # $DES mode (nonlinear elimination) with TWO OR MORE successive shifts of the compartment numbers and a scale
+    # parameter: S<n> / A(n) / the stored compartment map must follow after EVERY step, not only the first
+    ('pheno', [_MM, _FO, _TR]), ('pheno', [_MM, _FO, _TR, _IA]), ('pheno', [_MM, _FO, ['set_transit_compartments', {'n': 1}], _TR]),
+    ('pheno', [_MM, _FO, _TR, ['set_transit_compartments', {'n': 0}]]), ('pheno', ['set_mixed_mm_fo_elimination', _FO, _TR]),
+    ('pheno', ['set_zero_order_elimination', _FO, ['set_transit_compartments', {'n': 3}]]),
+    ('pheno', [_MM, _FO, _AP, _TR]), ('pheno', [_MM, _FO, 'add_lag_time', _TR]),
+    ('pheno_advan3', [_MM, _FO, _TR]), ('pheno_trans1', [_MM, _FO, _TR]),
+    ('moxo', [_MM, _TR, _IA]), ('moxo', [_MM, _TR, ['set_transit_compartments', {'n': 1}]]), ('moxo', [_MM, _IA, _FO]),
 ]
 
 
@@ -146,6 +155,22 @@ def gen_hist(rng, maxlen=4):
     steps = []
     for _ in range(n):
         steps.append([rng.choices(names, weights)[0], None])
+    return {'kind': 'hist', 'start': start, 'steps': steps, 'seed': rng.randrange(10 ** 9)}
+
+
+NONLIN = ['set_michaelis_menten_elimination', 'set_mixed_mm_fo_elimination', 'set_zero_order_elimination']
+SHIFTERS = [['set_first_order_absorption', {}], ['set_instantaneous_absorption', {}], ['set_seq_zo_fo_absorption', {}],
+            ['set_transit_compartments', {'n': 0}], ['set_transit_compartments', {'n': 1}], ['set_transit_compartments', {'n': 2}],
+            ['set_transit_compartments', {'n': 3}], ['add_lag_time', {}], ['add_peripheral_compartment', {}]]
+
+
+def gen_hist_des(rng):
+    """$DES-mode family: a nonlinear elimination first, then 2-4 steps that move the compartment numbers"""
+    start = rng.choice(['pheno', 'pheno', 'moxo', 'pheno_advan3', 'pheno_trans1', 'pheno_cmt'])
+    steps = [[rng.choice(NONLIN), {}]]
+    for _ in range(rng.choice([2, 2, 3, 4])):
+        st = rng.choice(SHIFTERS)
+        steps.append([st[0], dict(st[1])])
     return {'kind': 'hist', 'start': start, 'steps': steps, 'seed': rng.randrange(10 ** 9)}
 
 
